@@ -349,7 +349,7 @@ Fixpoint rev_csum (l : list float) : list float :=
   | [x] => [x]
   | x :: rest => match rev_csum rest with
                  | [] => [x]                       (* not reached: rest is nonempty *)
-                 | acc :: _ as r => fadd acc x :: r
+                 | (acc :: _) as r => fadd acc x :: r
                  end
   end.
 Fixpoint all_ok (l : list gres) (err : string) : gres :=
